@@ -274,7 +274,7 @@ def run(ctx):
     exe = ctx.harness("arena_replay", ["harness/arena/arena_replay.c"])
     pexe = ctx.harness("pool_replay", ["harness/arena/pool_replay.c"])
     scen = SCENARIOS + ([] if ctx.quick else SCENARIOS_THOROUGH)
-    nrandom = 40 if ctx.quick else 3000
+    nrandom = 40 if ctx.quick else 500
     executions, pool_executions = [], []
     t0 = [time.time()]
 
@@ -333,7 +333,7 @@ def run(ctx):
         scf = os.path.join(ctx.scratch, sc["name"] + ".scn")
         tr = os.path.join(ctx.scratch, sc["name"] + ".rtrace")
         meta = os.path.join(ctx.scratch, sc["name"] + ".rmeta")
-        exs, metas = run_harness(ctx, exe, ["random", scf, str(250 if ctx.quick else 30000), tr, meta, str(ctx.seed)], tr, meta)
+        exs, metas = run_harness(ctx, exe, ["random", scf, str(250 if ctx.quick else 3000), tr, meta, str(ctx.seed)], tr, meta)
         for e in exs:
             executions.append((sc["name"], "random", e))
     for sc in POOL_SMALL:
@@ -351,7 +351,7 @@ def run(ctx):
     scf = os.path.join(ctx.scratch, "rp.scn")
     pool_scenario_file(POOL_RANDOM, scf)
     tr, meta = os.path.join(ctx.scratch, "rp.rtrace"), os.path.join(ctx.scratch, "rp.rmeta")
-    exs, metas = run_harness(ctx, pexe, ["random", scf, str(300 if ctx.quick else 30000), tr, meta, str(ctx.seed)], tr, meta)
+    exs, metas = run_harness(ctx, pexe, ["random", scf, str(300 if ctx.quick else 3000), tr, meta, str(ctx.seed)], tr, meta)
     for e in exs:
         pool_executions.append(("rp", "random", e))
     ctx.exhaustive = all_exh
@@ -364,7 +364,7 @@ def run(ctx):
         scf = os.path.join(ctx.scratch, "stress%d.scn" % i)
         scenario_file(sc, scf)
         tr, meta = os.path.join(ctx.scratch, "stress%d.trace" % i), os.path.join(ctx.scratch, "stress%d.meta" % i)
-        exs, metas = run_harness(ctx, exe, ["stress", scf, str(40 if ctx.quick else 1500), tr, meta], tr, meta, timeout=600)
+        exs, metas = run_harness(ctx, exe, ["stress", scf, str(40 if ctx.quick else 250), tr, meta], tr, meta, timeout=600)
         if i == 0:
             ctx.sample({"stress_scenario": sc})
         for e in exs:
@@ -373,7 +373,7 @@ def run(ctx):
         scf = os.path.join(ctx.scratch, "pstress%d.scn" % i)
         pool_scenario_file(psc, scf)
         tr, meta = os.path.join(ctx.scratch, "pstress%d.trace" % i), os.path.join(ctx.scratch, "pstress%d.meta" % i)
-        exs, metas = run_harness(ctx, pexe, ["stress", scf, str(40 if ctx.quick else 1500), tr, meta], tr, meta, timeout=600)
+        exs, metas = run_harness(ctx, pexe, ["stress", scf, str(40 if ctx.quick else 250), tr, meta], tr, meta, timeout=600)
         for e in exs:
             pool_executions.append(("pstress%d" % i, "stress", e))
     phase("stress")
